@@ -110,7 +110,48 @@ func DrawScenario(t *Tape, property string) (*Scenario, Config) {
 	}
 	cfg.EnvDelayMaxMs = []int{0, 200, 3000}[t.Next(3)]
 	cfg.ReadyDelayMaxS = []int{0, 2, 20}[t.Next(3)]
+	applyProfile(t, property, sc, &cfg)
 	return sc, cfg
+}
+
+// applyProfile: per-property scenario weights and fault mix.  The set of active oracles never depends on it.
+func applyProfile(t *Tape, property string, sc *Scenario, cfg *Config) {
+	faulty := false
+	switch property {
+	case "C06", "C18", "C19":
+		faulty = true
+	case "C07":
+		faulty = t.Next(3) == 1
+	}
+	if property == "C18" {
+		// deletion requested at every phase
+		ev := UserEvent{Kind: "delete-rollout", AtStep: 1 + t.Next(len(sc.Steps)), AtState: stepStates[t.Next(len(stepStates))]}
+		keep := sc.Events[:0]
+		for _, e := range sc.Events {
+			if e.Kind != "delete-rollout" && e.Kind != "disable" && e.Kind != "enable" && t.Next(2) == 0 {
+				keep = append(keep, e)
+			}
+		}
+		sc.Events = append(keep, ev)
+	}
+	if property == "C06" && t.Next(3) != 0 {
+		// most crash/fault runs use an undisturbed release so that the final state is comparable with the fault-free one
+		sc.Events = nil
+	}
+	if !faulty {
+		return
+	}
+	// swarm: each fault kind is enabled or not per run
+	pick := func(rates ...int) int { return rates[t.Next(len(rates))] }
+	cfg.ErrBefore = pick(0, 150, 400)
+	cfg.ErrAfter = pick(0, 100, 300)
+	cfg.Conflict = pick(0, 300)
+	cfg.CrashAtCall = pick(0, 60, 200)
+	cfg.EventDup = pick(0, 300)
+	cfg.ClockJump = pick(0, 0, 5)
+	cfg.PodFlap = pick(0, 0, 20)
+	cfg.PodKill = pick(0, 0, 10)
+	cfg.FaultsStopAt = 400 + t.Next(3000)
 }
 
 var stepStates = []string{"BeforeStepUpgrade", "StepUpgrade", "StepTrafficRouting", "StepMetricsAnalysis", "StepPaused", "StepReady"}
